@@ -371,7 +371,7 @@ func (g *uciGen) idle(w *uciWorld) {
 			g.send("isready")
 		}
 		if r.IntN(12) == 0 {
-			g.send(pick(r, []string{"fen", "eval"}))
+			g.send(pick(r, []string{"fen", "eval", "perft 1", "perft 2", "spsa"}))
 		}
 		pos := g.positionLine()
 		if g.newGameNext {
